@@ -131,3 +131,22 @@ Fixpoint face_fold (rs : list (sty * sty)) (f : list (list N)) (k ip : nat) (tp 
   | (_, lt) :: rs', ws :: f' => face_fold rs' f' (S k) ip tp (face_step k ip tp lt ws st)
   | _, _ => st
   end.
+
+(* ---------- recognised groups ---------- *)
+(* the declared type of the first property, in header order, that is a member of the group *)
+Fixpoint first_ty (ms : list string) (ps : vprops) : option sty :=
+  match ps with [] => None | (t, n) :: r => if existsb (seqb n) ms then Some t else first_ty ms r end.
+(* the layout offset of member m if it is declared with type t *)
+Definition member_off (bin : bool) (ps : vprops) (t : sty) (m : string) : option nat :=
+  match offsets bin ps m with
+  | Some (c, t') => if sty_eqb t t' then Some c else None
+  | None => None
+  end.
+(* the reader a vector group gets: built exactly when every member is declared with the type of the first declared
+   member; offsets = the members' layout offsets *)
+Definition vec_reader (bin : bool) (attr : string) (ms : list string) (ps : vprops) : option built :=
+  match first_ty ms ps with
+  | Some t => option_map (fun os => {| b_attr := attr; b_names := ms; b_offs := os; b_ty := t; b_v1 := false |})
+                         (all_some (map (member_off bin ps t) ms))
+  | None => None
+  end.
